@@ -38,6 +38,8 @@ impl Group for C11Sim {
             c("vh 0 g 0|rv 0|shx 0 g|restart|vh1 0 g 1"),
             c("world fresh|act|vh1 0 g 0|restart|act|restart|vh 0 g 1|rv 0"),
             c("world fresh|vh 0 g 0|act|restart|scp 0 0"),
+            // a signer whose tracker is still below the compiled-in checkpoint
+            c("world nocp|restart|blk+ g|blk+ g|restart|vh 0 g 0|rv 0|blk- g|restart|hb"),
             // a full channel map
             c("newch 1|newch 2|newch 3|newch 4|restart|newch 4|forget 2|newch 4|restart|newch 5"),
             // closing through either entry point must be durable
@@ -52,6 +54,7 @@ impl Group for C11Sim {
             if rng.chance(1, 6) { ops[i] = "restart".to_string(); }
         }
         if rng.chance(1, 3) { ops.insert(0, "world perm".to_string()); }
+        else if rng.chance(1, 6) { ops.insert(0, "world nocp".to_string()); }
         else if rng.chance(1, 5) {
             // a channel whose initial commitment is not yet validated: validate (either entry point), activate
             let mut pre = vec!["world fresh".to_string()];
